@@ -91,9 +91,9 @@ def sample_doc(voc, variant=0):
     """A small document with non-ASCII content, in the intersection of the
     PROV-JSON / PROV-XML / PROV-O expressible spaces; `variant` adds shapes."""
     d = ProvDocument()
-    d.add_namespace("ex", "http://a.example/")
+    d.add_namespace("ex", uri_text(["a"]))
     if variant % 2:
-        d.add_namespace("other", "http://c.example/")
+        d.add_namespace("other", uri_text(["c"]))
     s1 = voc.value("str", "s1")
     if "\r" in s1 or "\\" in s1:
         s1 = "s1"
@@ -174,6 +174,8 @@ class World(object):
     """Live objects of one behaviour, addressed by the spec's handle names."""
 
     def __init__(self, init, seed=0, salt=0):
+        import vocab as _vocab
+        _vocab.set_variant(salt + seed)      # which concrete URIs the application namespaces have here
         self.voc = Vocab(seed, salt)
         self.voc_seed = seed
         self.init = init
@@ -386,6 +388,14 @@ class World(object):
         formals = [(f[0], self.value(f[1])) for f in a["formals"]]
         extras = [(self.name(e[0]), self.value(e[1])) for e in a["extras"]]
         via = a.get("via", "new_record")
+        if via in ("revision", "quotation", "primary_source"):      # typed derivation factories
+            fd = dict(formals)
+            args = [fd.get(f) for f in FORMALS[k]]
+            meth = getattr(c, via if self.salt % 2 else {"revision": "wasRevisionOf", "quotation": "wasQuotedFrom",
+                                                          "primary_source": "hadPrimarySource"}[via])
+            return lambda: meth(*args, identifier=ident, other_attributes=extras or None)
+        if via == "collection":
+            return lambda: c.collection(ident, extras or None)
         if via in ("factory", "alias") and (k not in NO_ID_FACTORY or (ident is None and not extras)):
             fd = dict(formals)
             args = [fd.get(f) for f in FORMALS[k]]
